@@ -90,6 +90,16 @@ func (h *H) Fail(sig, what string, c interface{}) {
 	}
 }
 
+// failed reports whether a failure with this signature has been recorded.
+func (h *H) failed(sig string) bool {
+	for _, f := range h.failures {
+		if f.Sig == sig {
+			return true
+		}
+	}
+	return false
+}
+
 // InFlight records the case about to be run, so that a crash/hang of the harness process
 // itself can be attributed to an input by the orchestrator.
 func (h *H) InFlight(v interface{}) {
